@@ -101,6 +101,11 @@ CHECKS = {
          "Scenarios of 1..8 workers, up to 12 tasks each with a panic flag and a busy time, an optional witness batch of N tasks that each wait for the other N-1 to have started, a second round of tasks (a restarted worker panicking again), ended by stop()+drop or by drop alone. Invariants: every submitted task starts exactly once and, unless it panics, finishes exactly once; tasks queued before or after a panic still run; the witness completes (the pool is back to N usable workers); never more than N tasks between start and finish; stop/drop return within 10 s; afterwards every worker thread that ran a task exits (observed through thread-local exit guards).",
          "Stress mode: interleavings are those the OS scheduler produces plus generated submission gaps; a race can be missed but not falsely reported. (A controlled-scheduler mode through the H-pool shim is planned; see DESIGN.md §3.)",
          "DESIGN.md §5 C08"),
+ "C14": ("exploration",
+         "program generation: the harness writes Rust programs (type declarations via derive and json_map!, random values, json! literals from the JSON grammar), compiles them against the working tree and checks each case against a harness-side reference serialiser (round trip + documented shape + differential with Value::parse)",
+         "Per batch ~40 generated type declarations (named structs 1..8 fields, tuple structs 1..6 fields, unit-variant enums 1..8 variants; #[derive(FromJson, IntoJson)] and json_map!; fields over bool / all integer widths / f64 / String / Option<T> / Vec<T> / earlier generated types; #[rename] strings with spaces, quotes, backslashes, non-ASCII, empty and JSON-special characters) with several random values each, and ~300 json! literals (null / arrays / objects / Rust expressions and variables in every position, variable keys, trailing commas, depth <= 6). One cargo build evaluates the whole batch; each case checks to_json == documented shape (member order included), from_json(to_json(v)) == v, from_str(to_string(v)) == v; each literal == its constructor-built value == Value::parse(equivalent text). A batch that fails to compile is bisected down to the offending case.",
+         "Trusts the harness-side reference serialiser and cargo; generator restricted to documented forms (no Option<Option<T>>, no attributes other than rename, distinct keys). Known finding: 64-bit integers beyond 2^53 do not round-trip (Value::Number is f64).",
+         "DESIGN.md §5 C14"),
 }
 
 NOT_YET = "check not built yet (work in progress; see DESIGN.md §5 for the intended design)"
